@@ -1015,14 +1015,22 @@ def parse_primary_expr(lexer, unary_minus=False):
         result = NodeLiteral(ValueString(token.value), token.pos)
         result = deref_or_invoke(lexer, result)
     elif token.type == "int":
+        try:
+            intvalue = int(token.value)
+        except ValueError:
+            raise CklSyntaxError("Invalid int literal", token.pos)
         result = NodeLiteral(
-            ValueInt(int(token.value) * (-1 if unary_minus else 1)),
+            ValueInt(intvalue * (-1 if unary_minus else 1)),
             token.pos,
         )
         result = invoke(lexer, result)
     elif token.type == "decimal":
+        try:
+            decimalvalue = float(token.value)
+        except ValueError:
+            raise CklSyntaxError("Invalid decimal literal", token.pos)
         result = NodeLiteral(
-            ValueDecimal(float(token.value) * (-1 if unary_minus else 1)),
+            ValueDecimal(decimalvalue * (-1 if unary_minus else 1)),
             token.pos,
         )
         result = invoke(lexer, result)
